@@ -42,7 +42,7 @@ func compareSearch(st *sdb.Store, docs []*model.Doc, q *model.Q, sc *searchCase,
 	res, err := st.Search(sdb.SearchReq{Query: sc.Query, SeqQL: sc.Lang == "seqql", From: sc.From, To: sc.To, Size: sc.Limit, Offset: sc.Offset,
 		Asc: sc.Asc, WithTotal: sc.WithTotal, Interval: sc.Interval})
 	if err != nil {
-		return "error-returned", map[string]any{"error": err.Error(), "expected_ids": fmtIDs(exp.IDs, 20)}, exp
+		return "error-returned:" + errSig(err.Error()), map[string]any{"error": err.Error(), "expected_ids": fmtIDs(exp.IDs, 20)}, exp
 	}
 	if res.Code != 0 {
 		return "error-code", map[string]any{"code": res.Code.String()}, exp
